@@ -6,6 +6,8 @@ package sarama
 // functions here (see engine/api.go globalOverrides). They are interpreted like any other code.
 
 import (
+	"time"
+
 	"github.com/rcrowley/go-metrics"
 )
 
@@ -252,3 +254,5 @@ func vDecompress(cc CompressionCodec, data []byte) ([]byte, error) {
 	}
 	return data[3:], nil
 }
+
+func time0() (t time.Time) { return }
